@@ -240,6 +240,10 @@ OPN2::OPN2() :
     m_insBankSetup.lfoFrequency = 0;
     m_insBankSetup.chipType = OPNChip_OPN2;
     m_insBankSetup.mt32defaults = false;
+#ifdef OPNMIDI_VERIF
+    m_verifTap = NULL;
+    m_verifTapData = NULL;
+#endif
 
     // Initialize blank instruments banks
     m_insBanks.clear();
@@ -259,16 +263,25 @@ bool OPN2::setupLocked()
 
 void OPN2::writeReg(size_t chip, uint8_t port, uint8_t index, uint8_t value)
 {
+#ifdef OPNMIDI_VERIF
+    if(m_verifTap) m_verifTap(m_verifTapData, chip, port, index, value);
+#endif
     m_chips[chip]->writeReg(port, index, value);
 }
 
 void OPN2::writeRegI(size_t chip, uint8_t port, uint32_t index, uint32_t value)
 {
+#ifdef OPNMIDI_VERIF
+    if(m_verifTap) m_verifTap(m_verifTapData, chip, port, static_cast<uint8_t>(index), static_cast<uint8_t>(value));
+#endif
     m_chips[chip]->writeReg(port, static_cast<uint8_t>(index), static_cast<uint8_t>(value));
 }
 
 void OPN2::writePan(size_t chip, uint32_t index, uint32_t value)
 {
+#ifdef OPNMIDI_VERIF
+    if(m_verifTap) m_verifTap(m_verifTapData, chip, 0xFF, static_cast<uint16_t>(index), static_cast<uint8_t>(value));
+#endif
     m_chips[chip]->writePan(static_cast<uint16_t>(index), static_cast<uint8_t>(value));
 }
 
